@@ -175,7 +175,7 @@ def run_kani(crate, filters, harness_timeout=300, jobs=14, overall_timeout=7200,
     return results, out, secs, build_failed
 
 
-def playback_values(crate, harness, harness_timeout=300):
+def playback_values(crate, harness, harness_timeout=300, want_desc=None):
     """Asks Kani for the concrete counterexample of a failing harness; returns
     the list of byte vectors in `kani::any()` call order (or None)."""
     crate_dir = os.path.join(VERIF, "kani", crate)
@@ -195,14 +195,29 @@ def playback_values(crate, harness, harness_timeout=300):
         "%ds" % harness_timeout,
         "--harness",
         harness,
-        "--exact" if "::" in harness else "--output-format=regular",
+        "--exact",
     ]
     rc, out, secs = run(cmd, cwd=crate_dir, env=env, timeout=harness_timeout + 600)
-    m = re.search(r"let concrete_vals: Vec<Vec<u8>> = vec!\[(.*?)\n\s*\];", out, re.S)
-    if not m:
+    tests = []
+    for tm in re.finditer(r"/// Check for `([^`]*)`: \"(.*?)\"\s*\n(.*?)kani::concrete_playback_run", out, re.S):
+        klass, desc, body = tm.group(1), tm.group(2).strip('"'), tm.group(3)
+        m = re.search(r"let concrete_vals: Vec<Vec<u8>> = vec!\[(.*)", body, re.S)
+        if not m:
+            continue
+        vals = []
+        for vm in re.finditer(r"vec!\[([0-9,\s]*)\]", m.group(1)):
+            b = vm.group(1).strip()
+            vals.append([int(x) for x in b.split(",") if x.strip()] if b else [])
+        tests.append((klass, desc, vals))
+    if not tests:
         return None, out
-    vals = []
-    for vm in re.finditer(r"vec!\[([0-9,\s]*)\]", m.group(1)):
-        body = vm.group(1).strip()
-        vals.append([int(x) for x in body.split(",") if x.strip()] if body else [])
-    return vals, out
+    # the playback of the failing check we report, not of a cover or an
+    # ignored float check
+    if want_desc is not None:
+        for klass, desc, vals in tests:
+            if klass != "cover" and desc == want_desc:
+                return vals, out
+    for klass, desc, vals in tests:
+        if klass not in ("cover", "NaN") and not any(r.search(desc) for r in IGNORED_DESC):
+            return vals, out
+    return None, out
